@@ -584,9 +584,11 @@ class MATD3(MultiAgentRLAlgorithm):
         """
         states, actions, rewards, next_states, dones = experiences
 
+        # NOTE: the centralised critics see the actions stacked with list(actions.values()); keep them
+        # in agent_ids order (the order of the stacked observations and of the target actors' next
+        # actions) whatever the key order of the dictionary the caller provides
         actions = {
-            agent_id: agent_actions.to(self.device)
-            for agent_id, agent_actions in actions.items()
+            agent_id: actions[agent_id].to(self.device) for agent_id in self.agent_ids
         }
         rewards = {
             agent_id: agent_rewards.to(self.device)
